@@ -66,6 +66,10 @@ def _classes(t):
 
 
 def sym_isinstance(x, t):
+    if _builtin_isinstance(x, sx.SymNpInt):
+        import numpy as _np
+        return any(_builtin_isinstance(c, _builtin_type) and issubclass(_np.int64, c)
+                   for c in (_unvirtual(c) for c in _classes(t)))
     if _builtin_isinstance(x, sx.SymNum):
         ts = _classes(t)
         if x.is_int:
